@@ -89,7 +89,9 @@ CLAIMS["C17"] = dict(level="model_checking", tech="UAX #15 written in TLA+ (Norm
     text="decomposition (recursive + Hangul arithmetic), canonical ordering and composition with the blocking rule are TLA+ operators; TLC checks "
          "idempotence and NFD/NFC agreement on all short strings over critical code points; every result of the real wcsnorm_s is compared by "
          "TraceNorm.tla with NFD/NFC of those operators (content, terminator, reported length, cleared slack, failure only when the documented room "
-         "is missing), each result is normalized again, out-of-range values must be rejected without a fault, and the emitted fold lengths must match iswfc",
+         "is missing), each result is normalized again, out-of-range values must be rejected without a fault, and the emitted fold lengths must match iswfc; "
+         "the exported stages wcsnorm_decompose_s / wcsnorm_reorder_s / wcsnorm_compose_s are judged against the stage operators (DecompStr, Reorder, ComposeRec) "
+         "for every dmax from 1 to ample, and aliases of the composing pairs in other planes / rows must not compose",
     ref="§3 C17", note="oracle tables from python3 unicodedata 14.0 (independent of the library's generated headers); quick: all mapped code points + 6000 sampled others, thorough: every assigned code point; compat forms (NFKD/NFKC) are not built in this configuration; fold mapping values are not compared with CaseFolding.txt; trusted: TLC, harness/hnorm.c")
 CLAIMS["C15"] = dict(level="model_checking", tech="TLA+ definition of the C library's two codesets and its restartable converters (Mbs.tla) with laws checked by TLC (GenMbs.tla) + every enumerated call replayed through the six _s functions next to the standard function + TLC trace validation (TraceMbs.tla)",
     text="ASCII and the C library's UTF-8 (decode, encode), mbsrtowcs / wcsrtombs / wcrtomb and the _s contract (the standard result if it fits into dmax "
